@@ -37,10 +37,11 @@ theorem absRawP_eq {ms0 : List Macro} {raw : List Tok} (h : TextP ms0 raw) : abs
     by_cases hnl : t.kind = .TNEWLINE
     · rw [absRawP_cons_nl _ _ _ hnl, absRawF_cons_nl _ _ hnl, ih]
     · rw [absRawP_cons_visible _ _ _ hnl h4, absRawF_cons_visible _ _ hnl h4, ih, mkHp_nohide _ _ _ h5]
-  | call T lp r' F args rest h1 h2 h3 h4 h5 h6 h7 h8 h9 ih =>
+  | call T lp r' F args rest h1 h2 h3 h4 h5 h5' h6 h7ok h8 h9 ih =>
     obtain ⟨pre, hpre⟩ := collect_suffix F.params r' 0 0 [] [] args rest h6
     have htake : r'.take (r'.length - rest.length) = pre := by
       rw [hpre]; simp
+    have h7 := h7ok.raw
     rw [htake] at h7
     have hT1 : T.kind ≠ .TNEWLINE := by rw [h1]; decide
     have hT2 : T.kind ≠ .TEOF := by rw [h1]; decide
@@ -54,7 +55,7 @@ theorem absRawP_eq {ms0 : List Macro} {raw : List Tok} (h : TextP ms0 raw) : abs
     congr 3
     apply List.map_congr_left
     intro x hx
-    exact mkHp_nohide _ _ _ (h7 x hx).2.2.2.2.2
+    exact mkHp_nohide _ _ _ (h7 x hx).2.2.2.2
 
 def argTokOKb (ms0 : List Macro) (t : Tok) : Bool :=
   decide (t.kind ≠ .TNEWLINE) && decide (t.kind ≠ .THASH) && decide (t.kind ≠ .TNONE) && decide (t.kind ≠ .TEOF) &&
@@ -69,6 +70,64 @@ theorem argTokOK_of_b {ms0 : List Macro} {t : Tok} (h : argTokOKb ms0 t = true) 
   have := (isFunNameb_iff ms0 t).mpr hf
   rw [h5] at this; cases this
 
+/-- executable test for `ArgsOK L rest` (`fuel` = at least the length of `L` plus one) -/
+def argsOKb (ms0 : List Macro) : Nat → List Tok → List Tok → Bool
+  | 0, _, _ => false
+  | f + 1, L, rest =>
+    if L.length ≤ rest.length then decide (L = rest)
+    else match L with
+      | [] => false
+      | t :: r =>
+        if isFunNameb ms0 t then
+          match macroget ms0 (t.lit.getD []), r with
+          | some FG, lp :: r'' =>
+            !t.hide && FG.func && decide (lp.kind = .TLPAREN) && !lp.hide &&
+            (match collect FG.params 0 0 [] [] r'' with
+              | .ok (argsG, rest'') =>
+                argsOKb ms0 f r'' rest'' && argsG.all (fun a => !a.isEmpty) && argsOKb ms0 f rest'' rest
+              | .error _ => false)
+          | _, _ => false
+        else argTokOKb ms0 t && argsOKb ms0 f r rest
+
+theorem argsOK_of_b (ms0 : List Macro) : ∀ (f : Nat) (L rest : List Tok), argsOKb ms0 f L rest = true → ArgsOK ms0 L rest
+  | 0, _, _, h => by simp [argsOKb] at h
+  | f + 1, L, rest, h => by
+    unfold argsOKb at h
+    by_cases hl : L.length ≤ rest.length
+    · rw [if_pos hl] at h
+      have : L = rest := by simpa using h
+      subst this
+      exact .done _
+    · rw [if_neg hl] at h
+      cases L with
+      | nil => simp at h
+      | cons t r =>
+        simp only at h
+        by_cases hfn : isFunNameb ms0 t = true
+        · rw [if_pos hfn] at h
+          have hk : t.kind = .TIDENT := ((isFunNameb_iff ms0 t).mp hfn).1
+          cases hm : macroget ms0 (t.lit.getD []) with
+          | none => rw [hm] at h; simp at h
+          | some FG =>
+            rw [hm] at h
+            cases r with
+            | nil => simp at h
+            | cons lp r'' =>
+              simp only [Bool.and_eq_true, Bool.not_eq_true', decide_eq_true_eq] at h
+              obtain ⟨⟨⟨⟨h1, h2⟩, h3⟩, h3'⟩, h4⟩ := h
+              cases hc : collect FG.params 0 0 [] [] r'' with
+              | error e => rw [hc] at h4; simp at h4
+              | ok v =>
+                obtain ⟨argsG, rest''⟩ := v
+                rw [hc] at h4
+                simp only [Bool.and_eq_true, List.all_eq_true, Bool.not_eq_true', List.isEmpty_eq_false_iff] at h4
+                obtain ⟨⟨h5, h6⟩, h7⟩ := h4
+                exact .call t lp r'' FG argsG rest'' rest hk h1 hm h2 h3 h3' hc (argsOK_of_b ms0 f _ _ h5) h6
+                  (argsOK_of_b ms0 f _ _ h7)
+        · rw [if_neg hfn] at h
+          simp only [Bool.and_eq_true] at h
+          exact .tok t r rest (argTokOK_of_b h.1) (argsOK_of_b ms0 f _ _ h.2)
+
 /-- executable test for `TextP` (`fuel` = at least the length of the text plus one) -/
 def textPb (ms0 : List Macro) : Nat → List Tok → Bool
   | 0, _ => false
@@ -77,10 +136,10 @@ def textPb (ms0 : List Macro) : Nat → List Tok → Bool
     if isFunNameb ms0 t then
       match macroget ms0 (t.lit.getD []), r with
       | some F, lp :: r' =>
-        !t.hide && F.func && decide (lp.kind = .TLPAREN) &&
+        !t.hide && F.func && decide (lp.kind = .TLPAREN) && !lp.hide &&
         (match collect F.params 0 0 [] [] r' with
           | .ok (args, rest) =>
-            (r'.take (r'.length - rest.length)).all (argTokOKb ms0) && args.all (fun a => !a.isEmpty) &&
+            argsOKb ms0 (r'.length + 1) r' rest && args.all (fun a => !a.isEmpty) &&
             textPb ms0 f rest
           | .error _ => false)
       | _, _ => false
@@ -104,7 +163,7 @@ theorem textP_of_b (ms0 : List Macro) : ∀ (f : Nat) (l : List Tok), textPb ms0
         | nil => simp at h
         | cons lp r' =>
           simp only [Bool.and_eq_true, Bool.not_eq_true', decide_eq_true_eq] at h
-          obtain ⟨⟨⟨h1, h2⟩, h3⟩, h4⟩ := h
+          obtain ⟨⟨⟨⟨h1, h2⟩, h3⟩, h3'⟩, h4⟩ := h
           cases hc : collect F.params 0 0 [] [] r' with
           | error e => rw [hc] at h4; simp at h4
           | ok v =>
@@ -112,7 +171,7 @@ theorem textP_of_b (ms0 : List Macro) : ∀ (f : Nat) (l : List Tok), textPb ms0
             rw [hc] at h4
             simp only [Bool.and_eq_true, List.all_eq_true, Bool.not_eq_true', List.isEmpty_eq_false_iff] at h4
             obtain ⟨⟨h5, h6⟩, h7⟩ := h4
-            exact .call t lp r' F args rest hk h1 hm h2 h3 hc (fun x hx => argTokOK_of_b (h5 x hx)) h6
+            exact .call t lp r' F args rest hk h1 hm h2 h3 h3' hc (argsOK_of_b ms0 _ _ _ h5) h6
               (textP_of_b ms0 f rest h7)
     · rw [if_neg hfn] at h
       by_cases hke : t.kind = .TEOF
